@@ -287,13 +287,15 @@ def check_C12(ctx):
                             env={"VERIF_PARAM_MODE": mode, "VERIF_SHARD": "%d/%d" % (sh, shards), "VERIF_BUDGET_S": str(budget), "GOMAXPROCS": "2"}))
     jobs += e2cache_jobs(ctx, "C12", 4 if th else 3, budget, 4 if th else 2, proxies=("1",))
     g = ctx.bin(GRID)
-    for via in ("http", "grpc"):
+    for via in ("http", "grpc", "s3"):
         for mode in ("zstd", "uncompressed"):
             jobs.append(Job(g, "TestC12Chain", name="C12chain:%s/%s" % (via, mode), timeout=600, env={"VERIF_PARAM_VIA": via, "VERIF_PARAM_MODE": mode}))
+    for mode in ("zstd", "uncompressed"):
+        jobs.append(Job(ctx.bin("./cache/azblobproxy"), "TestVfC12Az", name="C12azblob:%s" % mode, timeout=600, env={"VERIF_PARAM_MODE": mode}))
     return dict(level="fault_enumeration", jobs=jobs,
-                rule="seam level: kind {CAS,AC,RAW} x storage mode x size known/unknown x plain/zstd read x backend deviation {none, error, not found, nil reader, size metadata +1/-1/-1/0/over max_proxy_blob_size, one-byte reads, cancelled context, stream error at EVERY byte offset, clean EOF at EVERY byte offset}; 1 deviation quick, pairs (second read deviates too) thorough; then a local-only read with the backend emptied (poisoning) and the quiescence invariants; plus explicit-state BFS over operation sequences with a backend (write-through exactly once, decodable; read-through; faults mixed into sequences); fault class oversize: the object really is larger than max_proxy_blob_size (limit = size-1, size/2): never served, never cached; HTTP chain: the stored object's own header lies about the logical size (0, -1, +-1; short and 4 MiB bodies) - leak oracles only (the backend is trusted for content); faithful backend, reads at offsets 1, n/2, n-1 (plain and zstd), first through the backend, then the local hit; real backend clients: FindMissingBlobs with sizes n, n+-1; a backend configured not to upload (num_uploaders 0): 20 uploads leave no descriptor open; non-trivial = distinct fault cells completed with the oracle checked",
+                rule="seam level: kind {CAS,AC,RAW} x storage mode x size known/unknown x plain/zstd read x backend deviation {none, error, not found, nil reader, size metadata +1/-1/-1/0/over max_proxy_blob_size, one-byte reads, cancelled context, stream error at EVERY byte offset, clean EOF at EVERY byte offset}; 1 deviation quick, pairs (second read deviates too) thorough; then a local-only read with the backend emptied (poisoning) and the quiescence invariants; plus explicit-state BFS over operation sequences with a backend (write-through exactly once, decodable; read-through; faults mixed into sequences); fault class oversize: the object really is larger than max_proxy_blob_size (limit = size-1, size/2): never served, never cached; HTTP chain: the stored object's own header lies about the logical size (0, -1, +-1; short and 4 MiB bodies) - leak oracles only (the backend is trusted for content); faithful backend, reads at offsets 1, n/2, n-1 (plain and zstd), first through the backend, then the local hit; real backend clients (httpproxy, grpcproxy, s3proxy = minio client against a local S3 fake, azblobproxy = azblob SDK against a local Blob-endpoint fake): write-through + fresh peer, 404 / error status, cut at EVERY byte offset, header lies, leak oracle; FindMissingBlobs with sizes n, n+-1; a backend configured not to upload (num_uploaders 0): 20 uploads leave no descriptor open; non-trivial = distinct fault cells completed with the oracle checked",
                 assumptions=["the backend is trusted for content it completely delivers (no bit flips)",
-                             "scriptable in-memory cache.Proxy at the seam the real proxies implement; HTTP/gRPC proxy implementations are exercised by the chained-cache part",
+                             "scriptable in-memory cache.Proxy at the seam the real proxies implement; HTTP/gRPC/S3/Azure proxy implementations are exercised by the chained-cache part (S3 and Azure against local fakes that implement only the calls those backends make); the GCS backend is not executed",
                              "objects are 60-150 logical bytes so that every byte offset of the stored form is enumerated"] + E2_ASSUME[:2])
 
 
@@ -653,6 +655,11 @@ def main(argv):
         if "--replay" in argv:
             return replay(ctx, argv[argv.index("--replay") + 1])
         spec = CHECKS[prop](ctx)
+        if os.environ.get("VERIF_JOBS"):
+            # development aid: run only the jobs whose name matches (evidence goes to .build/evidence-mutant)
+            import re as _re
+            spec["jobs"] = [j for j in spec["jobs"] if _re.search(os.environ["VERIF_JOBS"], j.name)]
+            print("VERIF_JOBS: %d jobs: %s" % (len(spec["jobs"]), " ".join(j.name for j in spec["jobs"])))
         jobs = V.run_jobs(spec["jobs"], os.path.join(ctx.work, "out"), tier, seed, parallel=spec.get("parallel"))
         rc = V.finish(prop, spec["level"], tier, seed, jobs, t0, spec["assumptions"], spec["rule"],
                       extra_cov=spec.get("extra_cov"), require_distinct=spec.get("require_distinct", 2))
